@@ -43,6 +43,9 @@ type Alpha struct {
 	Reads      []string // list listdead stats lookup
 	Lists      []qmodel.ListSpec
 	Ticks      []time.Duration
+	// Reopen (SQLite searches only): a restart of the process on the same database file is an operation of the
+	// alphabet; the contract says it changes nothing and every lease a worker holds stays what it was.
+	Reopen bool
 	MaxHandles int // only the newest MaxHandles lease handles are offered (0 = all)
 }
 
@@ -181,6 +184,9 @@ func (a Alpha) Ops(m *qmodel.Model, handles []string) []qmodel.Op {
 			ops = append(ops, qmodel.Op{Kind: "lookup", IDs: []string{a.IDs[len(a.IDs)-1], " " + a.IDs[0], a.IDs[0], "nope"}})
 		}
 	}
+	if a.Reopen {
+		ops = append(ops, qmodel.Op{Kind: "reopen"})
+	}
 	for _, d := range a.Ticks {
 		ops = append(ops, qmodel.Op{Kind: "tick", Dur: d})
 	}
@@ -271,6 +277,9 @@ func Run(spec Spec) *Result {
 	if spec.ScaleCompaction && spec.Backend == "memory" {
 		ScaleApplied = queue.VerifSetCompaction(2, 1)
 		defer queue.VerifSetCompaction(1024, 4)
+	}
+	if spec.Backend != "sqlite" {
+		spec.Alpha.Reopen = false
 	}
 	scratch := runner.Scratch()
 	systems := make([]*qsys.Sys, spec.Workers)
